@@ -33,6 +33,12 @@ Temp  == Pick({<<7, 5>>, <<1, 3>>}, {<<29, 10>>})
 Params(f) ==
   CASE f = "Noh"   -> [geometry |-> Geo, gamma |-> Gam, rho0 |-> Rho, u0 |-> UNeg]
     [] f \in {"Noh2", "Noh2Cog"} -> [geometry |-> Geo, gamma |-> Gam, rho0 |-> Rho, e0 |-> Pick({<<1, 1>>, <<3, 10>>}, {<<4, 1>>})]
+    [] f \in RiemannFams ->
+         [rl |-> Pick({<<1, 1>>, <<4, 1>>}, {<<1, 8>>}), pl |-> Pick({<<1, 1>>, <<10, 1>>}, {<<1, 10>>}),
+          ul |-> Pick({<<-1, 2>>, <<0, 1>>, <<2, 1>>}, {<<1, 2>>, <<-2, 1>>}), gl |-> Pick({<<7, 5>>, <<3, 1>>}, {<<5, 3>>}),
+          rr |-> Pick({<<1, 8>>, <<1, 1>>}, {<<4, 1>>}), pr |-> Pick({<<1, 10>>, <<1, 1>>, <<10, 1>>}, {}),
+          ur |-> Pick({<<-2, 1>>, <<0, 1>>, <<1, 2>>}, {<<-1, 2>>, <<2, 1>>}), gr |-> Pick({<<7, 5>>, <<5, 3>>}, {<<3, 1>>}),
+          xd0 |-> Pick({<<1, 2>>}, {<<-3, 1>>})]
     [] f = "Cog1"  -> [geometry |-> Geo, gamma |-> Gam, rho0 |-> Rho, temp0 |-> Temp, b |-> Pick({<<6, 5>>, <<-1, 2>>}, {<<0, 1>>}), Gamma |-> BigG]
     [] f = "Cog2"  -> [geometry |-> Geo, gamma |-> Gam, rho0 |-> Rho, b |-> Pick({<<6, 5>>, <<-1, 2>>}, {<<3, 1>>}), Gamma |-> BigG]
     [] f = "Cog3"  -> [geometry |-> Geo, rho0 |-> Rho, b |-> Pick({<<6, 5>>, <<-1, 2>>}, {<<3, 1>>}), v |-> Pick({<<1, 2>>, <<-3, 2>>}, {<<-2, 1>>}), Gamma |-> BigG]
@@ -59,15 +65,18 @@ TimesOf(f, p) ==
   CASE f \in {"Noh2", "Noh2Cog"} -> Pick({<<3, 10>>, <<4, 5>>}, {<<1, 20>>})          \* t < 1
     [] f \in {"Cog6", "Cog7", "Cog18"} -> {<<p.tau[1] * x[1], p.tau[2] * x[2]>> : x \in Pick({<<1, 4>>, <<-1, 2>>}, {<<4, 5>>})}  \* |t| < tau
     [] f = "Cog20" -> Pick({<<3, 10>>, <<17, 10>>}, {<<1, 1>>})
+    [] f \in RiemannFams -> Pick({<<1, 4>>}, {<<2, 1>>})
     [] OTHER -> Times
 
 (* configurations whose closed form is defined (no division by zero, no  *)
 (* fractional power of a negative number): the mathematics, not a        *)
 (* documented restriction of the solver                                  *)
-Geom(f, p) == IF "geometry" \in DOMAIN p THEN p.geometry ELSE 3
+Geom(f, p) == IF "geometry" \in DOMAIN p THEN p.geometry ELSE IF f \in RiemannFams THEN 1 ELSE 3
 Defined(f, p, t) ==
   LET k == Geom(f, p) - 1 IN
-  CASE f = "Cog2"  -> ~QEq(p.b, <<-2, 1>>)
+  CASE f \in RiemannFams -> /\ ~(QEq(p.pl, p.pr) /\ QEq(p.ul, p.ur))                   \* a pure contact has no acoustic waves
+                            /\ ~(QEq(p.pl, p.pr) /\ QEq(p.rl, p.rr) /\ QEq(p.gl, p.gr))  \* mirror-symmetric data: no contact
+    [] f = "Cog2"  -> ~QEq(p.b, <<-2, 1>>)
     [] f = "Cog3"  -> ~QEq(p.v, <<k - 1, 1>>) /\ ~QEq(p.v, <<0, 1>>)
     [] f = "Cog6"  -> ~QEq(p.b, <<-2, 1>>)
     [] f = "Cog7"  -> QLt(p.Ri, p.R0)
